@@ -62,12 +62,13 @@ class Method:
         self.builders = set()               # locals holding `self.defaultBuilder(self)`
         self.asts = set()                   # locals holding a parse result
         self.captured = set()               # locals a lambda refers to: must not be rebound afterwards
+        self.opaque = set()                 # locals holding a value outside the language (never read by translated code)
         self.mod_is_local = modname_param is not None
 
     def var(self, name):
         if name not in self.vars:
             self.vars[name] = len(self.vars)
-        return 'v_%s_%s' % (self.tag, name)
+        return 'v_%s_%s' % (self.tag, name.replace('@', 'x_'))
 
     def use(self, name, node):
         if name not in self.assigned:
@@ -205,7 +206,17 @@ class Method:
                 elif f.attr == 'pop' and is_self_attr(f.value, 'processing_modules') and not v.args:
                     out = 'SAssignPop %s' % self.var(name)
             if out is None:
-                out = 'SAssign %s (%s)' % (self.var(name), self.expr(v))
+                try:
+                    out = 'SAssign %s (%s)' % (self.var(name), self.expr(v))
+                except Bad:
+                    # a value outside the language (arithmetic on counters, a message string ...) may be bound to a
+                    # local as long as computing it has no effect and the local is only passed to the dropped calls
+                    if not pure(v):
+                        raise
+                    self.vars.pop(name, None)
+                    self.opaque.add(name)
+                    self.assigned.discard(name)
+                    return None
                 if isinstance(v, ast.Name) and v.id in self.asts:
                     self.asts.add(name)
                 if isinstance(v, ast.Name) and v.id in self.builders:
@@ -287,16 +298,56 @@ def generate() -> dict:
     if params(pr) != ['self']:
         bad('parameters of process', pr)
     body = strip_doc(pr.body)
+    if body and isinstance(body[0], ast.For) and not body[0].orelse and isinstance(body[0].target, ast.Name):
+        # for mod in iter(self.<helper>, None): ...   where <helper>() is the first unprocessed module, or None when
+        # there is none   ==   while self.unprocessed_modules: mod = self.unprocessed_modules[0]; ...
+        it = body[0].iter
+        ok = (isinstance(it, ast.Call) and isinstance(it.func, ast.Name) and it.func.id == 'iter' and len(it.args) == 2
+              and isinstance(it.args[1], ast.Constant) and it.args[1].value is None and isinstance(it.args[0], ast.Attribute)
+              and isinstance(it.args[0].value, ast.Name) and it.args[0].value.id == 'self')
+        if ok:
+            hb = strip_doc(find_method(S, it.args[0].attr).body)
+            forms = (['if self.unprocessed_modules:\n    return self.unprocessed_modules[0]', 'return None'],
+                     ['if not self.unprocessed_modules:\n    return None', 'return self.unprocessed_modules[0]'],
+                     ['return self.unprocessed_modules[0] if self.unprocessed_modules else None'])
+            ok = [ast.unparse(x) for x in hb] in [list(f) for f in forms] and params(find_method(S, it.args[0].attr)) == ['self']
+        if not ok:
+            bad('process: unrecognised module iterator', body[0])
+        pick = ast.Assign(targets=[ast.Name(id=body[0].target.id, ctx=ast.Store())],
+                          value=ast.parse('self.unprocessed_modules[0]', mode='eval').body, lineno=body[0].lineno)
+        loop = ast.While(test=ast.parse('self.unprocessed_modules', mode='eval').body, body=[pick] + body[0].body, orelse=[])
+        ast.copy_location(loop, body[0])
+        ast.fix_missing_locations(loop)
+        body = [loop] + body[1:]
     if not body or not isinstance(body[0], ast.While) or body[0].orelse or not is_self_attr(body[0].test, 'unprocessed_modules'):
         bad('process: expected `while self.unprocessed_modules:` first', pr)
     loop = body[0]
+    PICKS = ('next(iter(self.unprocessed_modules))', 'self.unprocessed_modules[0]')
     pick = loop.body[0] if loop.body else None
-    if not (isinstance(pick, ast.Assign) and len(pick.targets) == 1 and isinstance(pick.targets[0], ast.Name)
-            and ast.unparse(pick.value) == 'next(iter(self.unprocessed_modules))'):
-        bad('process: loop does not start with mod = next(iter(self.unprocessed_modules))', loop)
-    m_pr = Method(pr, 'proc', modvar=pick.targets[0].id)
-    m_pr.assigned.add(pick.targets[0].id)
-    code_body = m_pr.block(loop.body[1:])
+    if (isinstance(pick, ast.Assign) and len(pick.targets) == 1 and isinstance(pick.targets[0], ast.Name)
+            and ast.unparse(pick.value) in PICKS):
+        m_pr = Method(pr, 'proc', modvar=pick.targets[0].id)
+        m_pr.assigned.add(pick.targets[0].id)
+        code_body = m_pr.block(loop.body[1:])
+    else:
+        # the oldest unprocessed module written in place: self.processModule(self.unprocessed_modules[0])
+        class Inline(ast.NodeTransformer):
+            def visit_Call(self, node):
+                self.generic_visit(node)
+                return node
+            def visit_Subscript(self, node):
+                return ast.copy_location(ast.Name(id='@first', ctx=ast.Load()), node) if ast.unparse(node) in PICKS else node
+            def visit_Call(self, node):
+                if ast.unparse(node) in PICKS:
+                    return ast.copy_location(ast.Name(id='@first', ctx=ast.Load()), node)
+                self.generic_visit(node)
+                return node
+        stmts = [Inline().visit(x) for x in loop.body]
+        m_pr = Method(pr, 'proc', modvar='@first')
+        m_pr.assigned.add('@first')
+        code_body = m_pr.block(stmts)
+        if 'SCallPM' not in code_body:
+            bad('process: the loop does not pick the first unprocessed module', loop)
     m_after = Method(pr, 'proc_after', modvar='@none')
     after = m_after.block(body[1:])
     if after != 'SSkip':
@@ -307,7 +358,7 @@ def generate() -> dict:
     for m, name, text in ((m_pm, 'process_module', code_pm), (m_gp, 'get_processed_module', code_gp), (m_pr, 'process_body', code_body)):
         lines.append('(* locals of System.%s *)' % m.fn.name)
         for py, i in m.vars.items():
-            lines.append('Definition v_%s_%s : var := %d.' % (m.tag, py, i))
+            lines.append('Definition v_%s_%s : var := %d.' % (m.tag, py.replace('@', 'x_'), i))
         lines.append('Definition code_%s : stmt :=' % name)
         lines.append(textwrap.fill(text, 110, initial_indent='  ', subsequent_indent='  ', break_long_words=False) + '.')
         lines.append('')
